@@ -287,6 +287,94 @@ def plain_family(rule):
     return _dedup(_suffixes(labels) + [rule, "a." + rule, "b.a." + rule, "c.b.a." + rule])
 
 
+# --------------------------------------------------------------------------------------
+# IDN rules (seed C13-6): the list spells most IDN rules in Unicode (`公司.cn`), the single-label IDN TLDs in both
+# forms (`рф`, `xn--p1ai`), a few multi-label ones in ACE (`xn--mgba3a4f16a.ir`).  suffix_trie.py compares labels
+# as strings, so where the suffix boundary falls depends on the trailing labels as they are spelled — whatever
+# stands to the left.  A split that decodes / encodes labels (the WHOLE host at once, say) breaks that as soon as
+# one label further left is undecodable or in the other spelling.  Hence, for every sampled rule holding a
+# non-ASCII or an `xn--` label: the rule in every spelling (as listed, all labels ACE-encoded, all ACE labels
+# decoded, only the first IDN label re-spelled) x child labels of the five kinds below x grandchildren.
+# --------------------------------------------------------------------------------------
+IDN_RAW = "\u4f8b"  # a raw Unicode label ...
+
+
+def _ace(label):
+    """the ACE spelling of a non-ASCII label by RFC 3492 alone (CPython's `punycode` codec: no nameprep, no
+    ural function); an ASCII label is returned as it is"""
+    if label.isascii():
+        return label
+    return "xn--" + label.encode("punycode").decode("ascii")
+
+
+def _unace(label):
+    """the label an `xn--` label encodes, None when RFC 3492 decoding fails / it is no ACE label"""
+    if not label.startswith("xn--"):
+        return None
+    try:
+        u = label[4:].encode("ascii").decode("punycode")
+    except (UnicodeError, ValueError):
+        return None
+    return u if u and not u.isascii() and u.lower() == u else None
+
+
+def _undecodable_ace():
+    """an `xn--` label that neither RFC 3492 nor CPython's idna codec decodes (derived, not assumed)"""
+    for tail in ("ii", "a-", "zz", "99", "-"):
+        lab = "xn--" + tail
+        try:
+            lab[4:].encode("ascii").decode("punycode")
+            lab.encode("ascii").decode("idna")
+        except (UnicodeError, ValueError):
+            return lab
+        except Exception:  # noqa
+            return lab
+    return "xn--ii"
+
+
+IDN_ACE = _ace(IDN_RAW)  # ... its valid ACE spelling (xn--fsq) ...
+IDN_BAD = _undecodable_ace()  # ... an ACE-looking label that decodes to nothing ...
+IDN_CHILDREN = ["shop", IDN_RAW, IDN_ACE, IDN_BAD, "XN--" + IDN_ACE[4:].upper()]  # ... and an upper-case ACE prefix
+IDN_ALWAYS = ["\u516c\u53f8.cn", "xn--p1ai", "\u0440\u0444", "xn--mgba3a4f16a.ir", "a\u00e9roport.ci", "\u05d0\u05e7\u05d3\u05de\u05d9\u05d4.\u05d9\u05e9\u05e8\u05d0\u05dc"]
+
+
+def is_idn_rule(r):
+    return (not r.isascii()) or any(l.startswith("xn--") for l in r.lstrip("!").split("."))
+
+
+def idn_spellings(rule):
+    """the rule's labels as listed, fully ACE-encoded, fully decoded, and with only its first IDN label in the
+    other spelling (a host mixing the two spellings inside the suffix)"""
+    labels = rule.split(".")
+    enc = [_ace(l) for l in labels]
+    dec = [(_unace(l) or l) for l in labels]
+    mixed = list(labels)
+    for i, l in enumerate(labels):
+        o = _ace(l) if not l.isascii() else (_unace(l) or l)
+        if o != l:
+            mixed[i] = o
+            break
+    out = []
+    for ls in (labels, enc, dec, mixed):
+        if ls not in out:
+            out.append(ls)
+    return out
+
+
+def idn_family(labels, others):
+    """one spelling of an IDN rule: its ancestors, the rule, a child of every kind (ASCII, raw Unicode, valid ACE,
+    undecodable ACE, upper-case ACE prefix), grandchildren that put an undecodable / raw label left of a decodable
+    one and vice versa; the other spellings of the rule with one child each (never ancestors of these: the
+    converse)"""
+    r = ".".join(labels)
+    hosts = _suffixes(labels) + [r] + [c + "." + r for c in IDN_CHILDREN]
+    hosts += [g + "." + c + "." + r for g, c in ((IDN_RAW, "shop"), (IDN_BAD, "shop"), ("shop", IDN_BAD), (IDN_ACE, IDN_RAW), (IDN_RAW, IDN_ACE))]
+    hosts.append(IDN_BAD + "." + IDN_RAW + ".shop." + r)
+    for o in others:
+        hosts += [".".join(o), "shop." + ".".join(o)]
+    return _dedup(hosts)
+
+
 _psl_memo = {}
 
 
@@ -299,10 +387,10 @@ def psl_families(tier):
     rules, idx = t["rules"], t["index"]
     fams = []
     for r in rules:
-        if r.startswith("!") and r.isascii():
+        if r.startswith("!") and "" not in r[1:].split("."):
             fams.append(("exc", r, exception_family(r, idx)))
     for r in rules:
-        if "*" in r and not r.startswith("!") and r.isascii():
+        if "*" in r and not r.startswith("!") and "" not in r.split("."):
             fams.append(("wild", r, wildcard_family(r, idx)))
     # (the bundled list has a line with a trailing dot, `xn--4dbgdty6c.xn--4dbrk0ce.`: no hostname can match it,
     # and a host spelled with a trailing dot is outside the suffix-aware theorems — dnsName)
@@ -312,6 +400,20 @@ def psl_families(tier):
     picked = [r for r in PLAIN_ALWAYS if r in plain] + multi[::step_m] + [r for r in plain if "." not in r][::step_s]
     for r in _dedup(picked):
         fams.append(("plain", r, plain_family(r)))
+    # IDN rules: every k-th rule holding a non-ASCII label (multi-label ones: only they can be re-spelled into
+    # something the list does not hold) / an `xn--` label, in every spelling
+    idn = [r for r in rules if is_idn_rule(r) and "*" not in r and not r.startswith("!") and "" not in r.split(".")]
+    uni_m = [r for r in idn if not r.isascii() and "." in r]
+    uni_s = [r for r in idn if not r.isascii() and "." not in r]
+    ace = [r for r in idn if r.isascii()]
+    k_m, k_s, k_a = (15, 50, 50) if tier == "quick" else (2, 4, 4)
+    for r in _dedup([x for x in IDN_ALWAYS if x in idn] + uni_m[::k_m] + uni_s[::k_s] + ace[::k_a]):
+        sp = idn_spellings(r)
+        for ls in sp:
+            hs = idn_family(ls, [o for o in sp if o != ls])
+            # (`рф` and `xn--p1ai` are both listed: the same families twice)
+            if not any(k == "idn" and h == hs for k, _, h in fams):
+                fams.append(("idn", r, hs))
     _psl_memo[tier] = fams
     return fams
 
